@@ -231,21 +231,29 @@ def nodes_laws(acc: Acc, root, label: str, case: dict, k_perm: int, seed: int) -
 			if got_sib != want_sib:
 				bad('siblings', f'{p!r}: {got_sib[:6]} expected {want_sib[:6]}')
 				return
-			# ancestor for every tag on the way up (other than the own tag)
+			# ancestor for every tag on the way up; for the entry's own tag the answer is the entry itself or its nearest proper ancestor with
+			# that tag (the documentation says "parent", the search starts at the entry) - never anything that is not on the way up
 			own = tag_of(elems[-1])
 			seen_tags = set()
-			for cut in range(len(elems) - 1, 0, -1):
+			for cut in range(len(elems), 0, -1):
 				t = tag_of(elems[cut - 1])
-				if t == own or t in seen_tags:
+				if t in seen_tags:
 					continue
 				seen_tags.add(t)
-				acc.see('law', 'ancestor')
+				acc.see('law', 'ancestor' + (':own-tag' if cut == len(elems) else ''))
 				try:
 					ga = nodes.ancestor(p, t).full_path
 				except Errors.Error as e:
 					ga = 'raise:' + type(e).__name__
-				if ga != '.'.join(elems[:cut]) and not ga.startswith('raise:'):
-					bad('ancestor', f'{p!r} tag {t!r}: {ga!r} expected {".".join(elems[:cut])!r}')
+				if ga.startswith('raise:'):
+					continue
+				accept = ['.'.join(elems[:cut])]
+				if cut == len(elems):
+					proper = next(('.'.join(elems[:c]) for c in range(len(elems) - 1, 0, -1) if tag_of(elems[c - 1]) == t), None)
+					if proper:
+						accept.append(proper)
+				if ga not in accept:
+					bad('ancestor', f'{p!r} tag {t!r}: {ga!r} expected {accept}')
 					return
 		if entry.has_child:
 			acc.see('law', 'expand-containment')
@@ -354,12 +362,26 @@ def classify(v: dict) -> str | None:
 	return None
 
 
+FIXED_SOURCES = [
+	# the same statement text under paths that differ only by indices: the class of a node depends on where it stands, not on what was resolved first
+	'class A:\n\tdef __init__(self) -> None:\n\t\tself.x = 1\n\t\tself.y = 2\n\tdef m(self) -> None:\n\t\tself.x = 1\n\t\tself.y = 2\n\tdef __init__2(self) -> None:\n\t\tself.x = 1\n',
+	'class A:\n\tdef m(self) -> None:\n\t\tself.x = 1\n\tdef __init__(self) -> None:\n\t\tself.x = 1\n',
+	'def f() -> None:\n\tdef g() -> None:\n\t\tpass\ndef g() -> None:\n\tpass\nclass C:\n\tdef g() -> None:\n\t\tpass\n\tdef h(self) -> None:\n\t\tdef g() -> None:\n\t\t\tpass\n',
+	'class A:\n\tx: int = 1\n\tdef __init__(self) -> None:\n\t\tx: int = 1\n\t\tself.x: int = 1\nx: int = 1\n',
+	'class A:\n\tclass B:\n\t\tpass\nclass B:\n\tpass\ndef f() -> None:\n\tclass B:\n\t\tpass\n',
+	'a = 1\nfor a in b:\n\ta = 1\nwith c as a:\n\ta = 1\n',
+]
+
+
 def shard(ctx: Ctx, acc: Acc) -> None:
 	from vf.gen.syntactic import SynGen
 	from vf.trees import real_module_paths
 	n = N_TREES[ctx.tier]
 	k = K_PERM[ctx.tier]
 	real = real_module_paths()
+	if ctx.shard == 0:
+		for j, src in enumerate(FIXED_SOURCES):
+			check_case(acc, {'kind': 'source', 'source': src, 'seed': 9000 + j}, max(k, 6))
 	for i in range(n):
 		if not ctx.mine(i):
 			continue
